@@ -147,3 +147,7 @@ pub open spec fn sem(e: ast::ArithmeticExpr, st: St, depth: u32) -> (Result<i64,
         }
     }
 }
+// std integer operations the evaluator has no business calling: named here only so that a change which starts using one of them is
+// checked against the semantics above instead of stopping the run (their results are left unspecified)
+pub assume_specification [i64::wrapping_rem_euclid] (a: i64, b: i64) -> (r: i64) requires b != 0;
+pub assume_specification [i64::wrapping_div_euclid] (a: i64, b: i64) -> (r: i64) requires b != 0;
